@@ -2425,6 +2425,9 @@ class BDD(dd._abc.BDD[_Ref]):
                 return - v
             else:
                 return v
+        # dumped without naming roots ?
+        if roots is None:
+            return None
         return _utils._map_container(
             map_node, roots)
 
